@@ -98,6 +98,7 @@ class Probe:
         self.connect_kw = []
         self.busy_guard = None          # does the integrity handler re-raise a busy error before os.remove?
         self.mark_ok = None             # is the database marked initialised only after the start-up statements?
+        self.init_uses = self.check_init_uses()
 
     def events_in(self, node):
         for n in pyast.walk(node):
@@ -227,6 +228,30 @@ class Probe:
                         raise ProbeError("assignment to %s" % st.targets[0].id)
         return out
 
+    def check_init_uses(self):
+        """every use of parse.initialized_dbs inside parse() must be one of: the (not) in test, `.add(x)`, or the
+        assignment of a set display; iteration, other mutation, aliasing or passing it on is flagged"""
+        fn = self.funcs.get("parse")
+        parent = {}
+        for n in pyast.walk(fn):
+            for ch in pyast.iter_child_nodes(n):
+                parent[ch] = n
+        bad = []
+        for n in pyast.walk(fn):
+            if isinstance(n, pyast.Attribute) and n.attr == "initialized_dbs" and pyast.unparse(n.value) == "parse":
+                p = parent.get(n)
+                ok = False
+                if isinstance(p, pyast.Compare) and n in p.comparators and all(isinstance(o, (pyast.In, pyast.NotIn)) for o in p.ops):
+                    ok = True
+                elif isinstance(p, pyast.Attribute) and p.attr == "add" and isinstance(parent.get(p), pyast.Call) \
+                        and parent[p].func is p:
+                    ok = True
+                elif isinstance(p, pyast.Assign) and n in p.targets and isinstance(p.value, pyast.Set):
+                    ok = True
+                if not ok:
+                    bad.append(pyast.unparse(parent.get(p, p) if p is not None else n)[:80])
+        return bad
+
     def check_mark(self, body):
         """parse.initialized_dbs may be extended / assigned only after the last cache statement of the
         start-up block (otherwise another thread of the process skips checks that have not been done)"""
@@ -319,6 +344,14 @@ def shared_cases(rng=None, n=0):
         cs.append(sched_case(rng.choice(["wrongpk", "wrongpk", "wrong", "fresh"]),
                              [call(rng.choice([0, 0, 1])) for _i in range(m)], sched,
                              pre=[[0, 0, 1], [1, 0, 2]], shared=True))
+    # the process has used ANOTHER cache database before ("warm"); one thread is held between entering parse()
+    # and its first statement (pause points at Path.mkdir / Path.exists) while another completes its start-up
+    for kind in ("fresh", "wrongpk"):
+        for k in (1, 2):
+            cs.append(dict(sched_case(kind, [call(0), call(0)], [1] * k + [0] * 40 + [1] * 4, pre=[[0, 0, 1]], shared=True),
+                           warm=True))
+    cs.append(dict(sched_case("fresh", [call(0), call(1), call(0)], [2, 1, 0, 0] + [0] * 36 + [1] * 6 + [2] * 4,
+                              shared=True), warm=True))
     for c in cs:
         if c["kind"] != "wrongpk":
             c["pre"] = []
@@ -590,6 +623,8 @@ def run(ctx):
                    pr.busy_guard is True, "busy_guard=%r" % pr.busy_guard)
         ctx.oblige("tie:database marked initialised only after the start-up checks", pr.mark_ok is True,
                    "mark_ok=%r" % pr.mark_ok)
+        ctx.oblige("tie:parse.initialized_dbs is only tested with `in` and extended by add / a set display "
+                   "(no iteration, no other mutation)", pr.init_uses == [], "other uses: %s" % pr.init_uses)
         gen = (core.HEADER + "From Coq Require Import List Bool Arith.\nImport ListNotations.\n"
                "From PV Require Import Lib.Lock Model.C02_conc.\n"
                "Definition gen_prog : prog := %s.\n"
@@ -621,7 +656,7 @@ def run(ctx):
 
     tm["tie"] = round(time.time() - t0, 1)
     # ---- S3: cases ----
-    n_rand = ctx.scaled(35, 1000)
+    n_rand = ctx.scaled(30, 1000)
     dcs = directed()
     rcs = [random_case(ctx.rng) for _ in range(n_rand)]
     ccs = corrupt_cases() + timeout_cases()
